@@ -64,6 +64,7 @@ type Obl struct {
 	extra   []string // skolem constants and hypothesis instances for a quantified goal
 	hist    *big.Int // block visits that can precede this obligation; nil = everything
 	hasQuant bool
+	shortFirst bool
 }
 
 func newCtx() *Ctx {
